@@ -1,3 +1,78 @@
+/-
+  Driver.X03 — runs the CodeModel of the UDP client's batching machine (Golib.Ext.UdpClient).
+
+    N ucp|old                      → ok            fresh client with the constants of net/udp/UcpClient.go | net/UdpClient.go
+    S <typ> <ver> <0|1> <body>     → <summary>     sendByBuffer(&UdpData{typ, ver, body, flush})
+                                                   body: x<hex> | g<len>:<seed> (byte i = (seed + 31 i + i/251) mod 256) | -
+    Z                              → <summary>     sendByBuffer(nil)
+    T                              → <summary>     processRemain's timer branch (sendBuffer)
+    P                              → <summary>     one process() iteration
+    PA                             → <summary>     process() until the channel is empty
+    D                              → <summary>     Shutdown
+    R                              → <summary>     ApplyConfig's UdpShutdown + open on an already shut client (reopen)
+    W                              → the datagrams written to the socket, oldest first, as len:fnv1a,… | -
+    WX                             → the same in full hex
+    F <hex>                        → parseDatagram: typ:ver:hexbody;… | fail
+  summary = b=<buffer len> c=<channel len> o=<handed to channel> w=<written> l=<lost> pc= cc= sc= ec= open=<0|1>
+-/
+import Golib.Ext.UdpClient
 import Driver.Common
-/-! Driver of the extension check X03 (placeholder until the model exists). -/
-def main : IO Unit := pure ()
+
+open Drv Ext.Udp
+
+def fnv (bs : Bytes) : Nat :=
+  bs.foldl (fun h b => ((h ^^^ b) * 16777619) % 4294967296) 2166136261
+
+def genBody (len seed : Nat) : Bytes :=
+  (List.range len).map (fun i => (seed + 31 * i + i / 251) % 256)
+
+def parseBody (s : String) : Option Bytes :=
+  if s == "-" then some []
+  else match s.toList with
+    | 'x' :: rest => ofHexAux rest []
+    | 'g' :: rest =>
+      match (String.ofList rest).splitOn ":" with
+      | [l, sd] => match l.toNat?, sd.toNat? with
+        | some l, some sd => some (genBody l sd)
+        | _, _ => none
+      | _ => none
+    | _ => none
+
+def b01 (b : Bool) : String := if b then "1" else "0"
+
+def summary (s : St) : String :=
+  s!"b={s.buf.length} c={s.chan.length} o={s.offered.length} w={s.wire.length} l={s.lost.length} pc={s.packCount} cc={s.chanCount} sc={s.sendCount} ec={s.errCount} open={b01 s.isOpen}"
+
+partial def procAll (cfg : Cfg) (s : St) : St :=
+  if s.chan.isEmpty then s else procAll cfg (proc cfg s)
+
+def showFrame (f : Frame) : String := s!"{f.typ}:{f.ver}:{hexOf f.body}"
+
+def answer (st : Cfg × St) (line : String) : (Cfg × St) × String :=
+  let (cfg, s) := st
+  let upd (t : St) : (Cfg × St) × String := ((cfg, t), summary t)
+  match line.splitOn " " with
+  | ["N", "ucp"] => ((cfgUcp, {}), "ok")
+  | ["N", "old"] => ((cfgOld, {}), "ok")
+  | ["S", t, v, fl, body] =>
+    match t.toNat?, v.toInt?, parseBody body with
+    | some t, some v, some b => upd (step cfg s (.send ⟨t, v, b⟩ (fl == "1")))
+    | _, _, _ => (st, "bad-op")
+  | ["Z"] => upd (step cfg s .sendNil)
+  | ["T"] => upd (step cfg s .tick)
+  | ["P"] => upd (step cfg s .proc)
+  | ["PA"] => upd (procAll cfg s)
+  | ["D"] => upd (step cfg s .shutdown)
+  | ["R"] => upd (step cfg s .reopen)
+  | ["W"] => (st, listOf (fun d => s!"{d.length}:{fnv d}") s.wire.reverse)
+  | ["WX"] => (st, listOf hexOf s.wire.reverse)
+  | ["F", hex] =>
+    match ofHex hex with
+    | some bs =>
+      match parseDatagram bs with
+      | some fs => (st, if fs.isEmpty then "-" else ";".intercalate (fs.map showFrame))
+      | none => (st, "fail")
+    | none => (st, "bad-op")
+  | _ => (st, "bad-op")
+
+def main : IO Unit := mainLoop ((cfgUcp, ({} : St))) answer
